@@ -37,3 +37,25 @@ Proof. exact (conj old_json_helper_panics old_time_helper_panics). Qed.
 (* the shape hypothesis is satisfiable (a tree dumped from the real parser) *)
 Theorem C13_shape_instance : shape_expr ex_query = true.
 Proof. exact (proj1 ex_shape). Qed.
+
+(* Precompute (precompute.go, modelled on the tree Parse returns; jp.ParseString, regexp.Compile and
+   time.Now as oracles): no panic for every parsed tree.  surf_expr is what Parse guarantees beyond
+   shape_expr (every call has its identifier, parameters carry their expression), checked on every tree
+   dumped after kfl.Parse. *)
+Require Import V.Kfl.KflPre V.Kfl.KflPreProofs.
+Theorem C13_precompute_no_panic :
+  forall parse_float re_match parse_time b64dec parse_json xml_first redact_apply parse_path re_compiles now_ns uint64_of e,
+    shape_expr e = true -> surf_expr e = true ->
+    forall site,
+      precompute_model parse_float re_match parse_time b64dec parse_json xml_first redact_apply parse_path re_compiles now_ns uint64_of e
+      <> Panic site.
+Proof. exact precompute_no_panic. Qed.
+
+(* Parse -> Precompute -> Eval: whatever Precompute returns without panicking is evaluated without panic *)
+Theorem C13_prepared_query_evaluates :
+  forall parse_float re_match parse_time b64dec parse_json xml_first redact_apply parse_path re_compiles now_ns uint64_of e e' p err r,
+    shape_expr e = true ->
+    precompute_model parse_float re_match parse_time b64dec parse_json xml_first redact_apply parse_path re_compiles now_ns uint64_of e = Ok (e', p, err) ->
+    exists b r', eval_model parse_float re_match parse_time b64dec parse_json xml_first redact_apply e' r = Ok (b, r') /\
+                 (no_redact_expr e' = true -> r' = r).
+Proof. exact prepared_query_evaluates. Qed.
